@@ -88,7 +88,9 @@ Inductive case :=
    in the shape of t by the real MergeQPRs *)
 | CAgg (scale : Z) (exact : bool) (t : mtree) (q : query) (o : iout)
 (* histogram of one search *)
-| CHist (interval from to : N) (t : mtree) (impl : list (N * N)).
+| CHist (interval from to : N) (t : mtree) (impl : list (N * N))
+(* AggBin{mid, tok}.toKey() = key; fromKey(key) = (bmid, btok) (bytes as numbers) *)
+| CKey (mid : N) (tok : list N) (key : list N) (bmid : N) (btok : list N).
 
 (* ---------------------------------------------------------------- model output = implementation output *)
 
@@ -164,6 +166,12 @@ Definition case_agrees (c : case) : bool :=
   match c with
   | CAgg scale exact t q o => agg_agrees scale exact t q o
   | CHist interval from to t impl => hist_agrees interval from to t impl
+  | CKey mid tok key bmid btok =>
+      list_eqb N.eqb key (to_key mid tok) &&
+      match from_key key with
+      | Some (m, t) => (m =? bmid)%N && list_eqb N.eqb t btok
+      | None => false
+      end
   end.
 
 (* ---------------------------------------------------------------- the property, evaluated on the
@@ -331,6 +339,7 @@ Definition case_spec_ok (c : case) : bool :=
   match c with
   | CAgg scale exact t q o => agg_spec scale exact t q o
   | CHist interval from to t impl => hist_spec interval from to t impl
+  | CKey mid tok key bmid btok => (bmid =? mid)%N && list_eqb N.eqb btok tok
   end.
 
 Definition diff_indices (l : list case) : list nat := bad_indices (fun c => negb (case_agrees c)) l.
